@@ -13,7 +13,8 @@ token in the waiter queue - and on "every hand-over wakes one live waiter if the
                               per release / unlock / value sent, whatever the count or queue length was [found: two releases / sends
                               in a row, or a re-lock by the releaser, lost a wake-up - fixed cda2bca, 53bfbfa, 851fdd8];
                               operator<< appends at the BACK; unlock by a non-holder does nothing.
-Not decided: the scheduler itself (context switches, cancel, cleanup, join), Condition/Broadcast, interleavings of more than the calls above.
+Condition<int> / Broadcast: specs/C18/condition.py.
+Not decided: the scheduler itself (context switches, cancel, cleanup, join), interleavings of more than the calls above.
 """
 import os
 from verif import UnitSpec, Target
